@@ -19,7 +19,7 @@ enum { FV_OP_END = 0, FV_OP_LESS, FV_OP_MORE, FV_OP_UNPUT, FV_OP_INPUT, FV_OP_RE
        FV_OP_SCANSTRING, FV_OP_SCANBUFFER, FV_OP_SWITCH, FV_OP_PUSHBUF, FV_OP_POPBUF, FV_OP_FLUSH,
        FV_OP_DELETE, FV_OP_RESTART, FV_OP_CREATE, FV_OP_DESTROY, FV_OP_SETLINENO, FV_OP_GETLINENO,
        FV_OP_NEWYYIN, FV_OP_START, FV_OP_ATBOL, FV_OP_ECHO, FV_OP_TERMINATE, FV_OP_FLUSHCUR,
-       FV_OP_GRAB, FV_OP_CONT, FV_OP_INCLUDE_END, FV_OP_TLOAD, FV_OP_TDESTROY };
+       FV_OP_GRAB, FV_OP_CONT, FV_OP_INCLUDE_END, FV_OP_TLOAD, FV_OP_TDESTROY, FV_OP_LESS3 };
 
 #ifdef __cplusplus
 extern "C" {
@@ -120,6 +120,15 @@ extern "C" int fv_read_cxx(char *buf, size_t max_size);
 #define FV_DO_TOP() fv_fatal("harness: top without stack support")
 #endif
 
+/* yyless() called from section-3 code (the skeleton redefines the macro after the rules): a function of
+ * fvmain.c does it.  c99 has one yyless() function for both places; C++ member code only in the class. */
+#if defined(FV_BACKEND_C99) || defined(FV_BACKEND_CXX)
+#define FV_LESS3(n) FV_LESS(n)
+#else
+static void fv_less3(int n FV_PROTO_LAST);
+#define FV_LESS3(n) fv_less3((n) FV_AL)
+#endif
+
 #define FV_MATCH(i) do { fv_cur_prefix = fv_more_set ? fv_last_leng : 0; fv_more_set = 0; \
     fv_last_leng = (long) FV_LENG; \
     fv_log_match((i), FV_TEXT, (long) FV_LENG, FV_LINENO_EXPR, FV_START(), \
@@ -142,6 +151,8 @@ extern "C" int fv_read_cxx(char *buf, size_t max_size);
         switch (op_) { \
         case FV_OP_LESS: { int n_ = (int) (fv_cur_prefix + a_ % ((long) FV_LENG - fv_cur_prefix + 1)); \
             FV_LESS(n_); fv_last_leng = (long) FV_LENG; fv_log_text("less", FV_TEXT, (long) FV_LENG); } break; \
+        case FV_OP_LESS3: { int n_ = (int) (fv_cur_prefix + a_ % ((long) FV_LENG - fv_cur_prefix + 1)); \
+            FV_LESS3(n_); fv_last_leng = (long) FV_LENG; fv_log_text("less", FV_TEXT, (long) FV_LENG); } break; \
         case FV_OP_MORE: FV_DO_MORE; fv_more_set = 1; break; \
         case FV_OP_UNPUT: FV_UNPUT((int) a_); break; \
         case FV_OP_INPUT: { int c_ = yyinput(FV_A1); fv_log_int("in", c_); } break; \
